@@ -218,6 +218,9 @@ fn run_case(out: &mut Out, case: &Case) {
                 out.count("oracle:A-exact");
             } else {
                 out.count("oracle:A-proper-supertype");
+                if std::env::var("C08_SHOW_SUPER").is_ok() {
+                    eprintln!("PROPER-SUPERTYPE\n{}", case.src);
+                }
             }
             match &r.substituted_valid {
                 Some(Ok(())) => out.count("oracle:B-substituted-valid"),
